@@ -83,6 +83,9 @@ type PredDef struct {
 	Src    string
 	// uninterpreted function with axioms instead of macro
 	Uninterp bool
+	// ghost field: gfield name(x T) R -- a ghost component of the state, one R per object x (read as name(x),
+	// rewound by old(), named in modifies clauses as name(x))
+	GField bool
 }
 
 type AxiomDef struct {
@@ -163,7 +166,7 @@ var clauseKeywords = map[string]bool{
 	"decreases": true, "arith": true, "inline": true, "pure": true, "calllog": true, "call": true,
 	"assert": true, "lock": true, "finding": true, "pred": true, "fun": true, "axiom": true,
 	"lemma": true, "guards": true, "trusted": true, "note": true, "opt": true, "exit-ghost": true, "release-views": true,
-	"use": true, "ufun": true, "ghost-at": true, "lockinv": true,
+	"use": true, "ufun": true, "gfield": true, "ghost-at": true, "lockinv": true,
 }
 
 func (cs *ContractSet) parseLines(file string, lines []string, nums []int, extern bool) error {
@@ -230,7 +233,7 @@ func (cs *ContractSet) parseLines(file string, lines []string, nums []int, exter
 			cs.Order = append(cs.Order, key)
 			curLoop = nil
 			continue
-		case "pred", "fun", "ufun":
+		case "pred", "fun", "ufun", "gfield":
 			pd, err := parsePredDef(it.rest, it.kw)
 			if err != nil {
 				return fmt.Errorf("%s: %v", src, err)
@@ -551,8 +554,9 @@ func parsePredDef(s, kw string) (*PredDef, error) {
 		pd.Params = append(pd.Params, GhostDecl{Name: f[0], Type: te})
 	}
 	rest := strings.TrimSpace(s[cl+1:])
-	if kw == "ufun" {
-		pd.Uninterp = true
+	if kw == "ufun" || kw == "gfield" {
+		pd.Uninterp = kw == "ufun"
+		pd.GField = kw == "gfield"
 		if rest != "" {
 			te, err := parseTypeExpr(rest)
 			if err != nil {
